@@ -360,6 +360,7 @@ func rulesC09(c *Ctx) {
 	c.Floor("C09.opcorr", nArms, 150)
 	c.Floor("C09.signtest", nSign, 10)
 	shortcutsC09(c, tt, "C09.shortcuts")
+	promoteC09(c)
 	zoneC09(c)
 }
 
@@ -573,4 +574,61 @@ func allAcceptable(gots []string, want, lk, rk string) bool {
 		return false
 	}
 	return true
+}
+
+// promoteC09: mixed-kind operands are only ever promoted up the numeric
+// tower, and instants are compared as instants.
+func promoteC09(c *Ctx) {
+	p := c.P
+	c.Rule("C09.promote", "in the constant folder and the evaluator a numeric operand is converted only upwards: integer or unsigned to float, integer to unsigned (behind the sign test C09.signtest decides); never unsigned or float to integer, never float to unsigned — those wrap or truncate values the other kind can hold")
+	c.Rule("C09.timeeq", "no time.Time value is compared with == or != anywhere in the package: Go's struct equality also compares the location pointer and the monotonic reading, so equal instants compare unequal; instants are compared with Equal / Before / After")
+	nConv, nEq := 0, 0
+	for _, fn := range p.SrcFuncs() {
+		inFold := strings.HasPrefix(fn.Name(), "reduceBinaryExpr") || fn.Name() == "evalBinaryExpr"
+		for _, f := range append([]*ssa.Function{fn}, fn.AnonFuncs...) {
+			seen := map[string]int{}
+			for _, b := range f.Blocks {
+				for _, in := range b.Instrs {
+					switch x := in.(type) {
+					case *ssa.BinOp:
+						if (x.Op == token.EQL || x.Op == token.NEQ) && p.TypeStr(x.X.Type()) == "time.Time" {
+							nEq++
+							c.Bad("C09.timeeq", fmt.Sprintf("%s: time.Time %s time.Time", fn.Name(), x.Op), x.Pos(), "struct comparison of two instants: the same instant in two locations (or with a monotonic reading) compares unequal")
+						}
+					case *ssa.Convert:
+						if !inFold {
+							continue
+						}
+						fb, ok1 := x.X.Type().Underlying().(*types.Basic)
+						tb, ok2 := x.Type().Underlying().(*types.Basic)
+						if !ok1 || !ok2 || fb.Info()&types.IsNumeric == 0 || tb.Info()&types.IsNumeric == 0 {
+							continue
+						}
+						if _, isConst := x.X.(*ssa.Const); isConst {
+							continue
+						}
+						if _, named := x.Type().(*types.Named); named {
+							continue // time.Duration scaling is outside the property's value kinds
+						}
+						nConv++
+						dir := fb.Name() + " -> " + tb.Name()
+						seen[dir]++
+						key := fmt.Sprintf("%s: %s #%d", fn.Name(), dir, seen[dir])
+						fFloat, tFloat := fb.Info()&types.IsFloat != 0, tb.Info()&types.IsFloat != 0
+						fUns, tUns := fb.Info()&types.IsUnsigned != 0, tb.Info()&types.IsUnsigned != 0
+						switch {
+						case fFloat && !tFloat:
+							c.Bad("C09.promote", key, x.Pos(), "a float operand is truncated to an integer kind before folding")
+						case fUns && !tUns && !tFloat:
+							c.Bad("C09.promote", key, x.Pos(), "an unsigned operand is reinterpreted as signed: values above MaxInt64 become negative before folding")
+						default:
+							c.OK("C09.promote", key, x.Pos(), "upwards")
+						}
+					}
+				}
+			}
+		}
+	}
+	c.OK("C09.timeeq", "time.Time comparisons examined", 0, fmt.Sprintf("%d struct comparisons of instants in the package", nEq))
+	c.Floor("C09.promote", nConv, 15)
 }
